@@ -151,7 +151,8 @@ def run(ctx: Ctx, tier: str) -> Result:
     cc = [c for c in t.calls_in(ul) if isinstance(c.func, ast.Attribute) and c.func.attr == "config_change"]
     need(len(cc) == 1, "update_listeners: config_change call not found")
     last = ctx.expand.expand(cc[0].args[-1], ul)
-    if last == ["%s + @%s" % (P(ul, 5), custom_field)] or last == ["@%s + %s" % (custom_field, P(ul, 5))]:
+    polled = (P(ul, 5), "@self._tracepoint_config")
+    if last and all(x in ["%s + @%s" % (a_, custom_field) for a_ in polled] + ["@%s + %s" % (custom_field, a_) for a_ in polled] for x in last):
         res.ok("C13.ADD", {"listeners receive": last[0]})
     else:
         res.fail(Finding("C13.ADD", ul.qname, cc[0], ul.loc(cc[0]), "listeners do not receive polled + registered tracepoints: %s" % last))
